@@ -199,6 +199,19 @@ _BIN = {
 }
 
 
+
+_NO_LITERAL = object()
+
+
+def _literal_default(d):
+    """Value of a default written as a literal (number, string, bytes, bool, None, signed number)."""
+    if isinstance(d, ast.Constant):
+        return d.value
+    if isinstance(d, ast.UnaryOp) and isinstance(d.op, ast.USub) and isinstance(d.operand, ast.Constant) and isinstance(d.operand.value, (int, float)) and not isinstance(d.operand.value, bool):
+        return -d.operand.value
+    return _NO_LITERAL
+
+
 class Interp:
     def __init__(self, path, sources, registry=None, config=None):
         self.path = path
@@ -726,6 +739,18 @@ class Interp:
                             pass
                 defaults = list(f.__defaults__ or ())
                 kwdefaults = dict(f.__kwdefaults__ or {})
+                # literal defaults are read from the source text (the verified text), not from the imported
+                # function object: a changed default in the file is then seen like any other change
+                if not isinstance(node, ast.Lambda) and len(node.args.defaults) == len(defaults):
+                    for i, d in enumerate(node.args.defaults):
+                        lit = _literal_default(d)
+                        if lit is not _NO_LITERAL and type(lit) is type(defaults[i]):
+                            defaults[i] = lit
+                    for a, d in zip(node.args.kwonlyargs, node.args.kw_defaults):
+                        if d is not None and a.arg in kwdefaults:
+                            lit = _literal_default(d)
+                            if lit is not _NO_LITERAL and type(lit) is type(kwdefaults[a.arg]):
+                                kwdefaults[a.arg] = lit
                 name = f.__name__
                 self.transparent_used.add(f"{f.__module__}:{f.__qualname__}")
             frame.locals.update(self.bind_args(node.args, defaults, kwdefaults, args, kwargs, name, frame))
